@@ -12,12 +12,24 @@ def _ptg_match(fn):
     return best[0] if best else None
 
 
+_SPEC = {}
+
+
 def _arm_for(m, code):
+    """the arm of the dispatch that decodes token `code`, specialised for that token: an inner `match ptg` (several
+    token classes sharing one arm) is resolved"""
+    from .kit import specialise
+    sc = path_local(peel(m["scrut"])) if isinstance(peel(m["scrut"]), dict) and peel(m["scrut"]).get("k") == "Path" else None
     for a in m["arms"]:
         ks, ca = pat_keys(a["pat"])
         for k in ks:
             if k == ("int", code) or (k[0] == "range" and k[1] is not None and k[2] is not None and k[1] <= code <= k[2]):
-                return a
+                if sc is None or not any(x.get("k") == "Match" for x in walk(a["body"])):
+                    return a
+                key = (id(a), code)
+                if key not in _SPEC:
+                    _SPEC[key] = dict(a, body=specialise(a["body"], sc[1], code, pat_keys))
+                return _SPEC[key]
     return None
 
 
